@@ -189,7 +189,7 @@ func readAndJudge(r *vf.Run, level, keyClass string, bc *blobCase, a *alteration
 		if viaFd != nil {
 			r.Count(level+"_passthrough_fd_reads", 1)
 			if bad := bc.judgeBytes(op.Path, op.Off, viaFd); bad != "" {
-				r.Violate("ii:passthrough-fd-returns-altered-bytes:"+level+":"+keyClass,
+				r.Violate("ii:passthrough-fd-returns-altered-bytes:L2:"+keyClass,
 					fmt.Sprintf("%s: bytes behind the passthrough fd are not genuine after Verify(pinned)==nil: %s (%s, %s)", phase, bad, a.Desc, bc), replay)
 			}
 		}
@@ -420,10 +420,10 @@ const (
 	opVg = "Verify(D_good)"
 	opVo = "Verify(D_other)"
 	opS  = "SkipVerify"
+	opP  = "Prefetch+BackgroundFetch" // what filesystem.prefetch starts, waited for
 )
 
-func histories() [][]string {
-	ops := []string{opVg, opVo, opS}
+func histories(ops ...string) [][]string {
 	var res [][]string
 	var rec func(cur []string)
 	rec = func(cur []string) {
@@ -475,6 +475,7 @@ func runHistCase(r *vf.Run, bc *blobCase, a *alteration, store string, h []strin
 	var results []string
 	priorVerifyOK, priorSkip := "", false
 	goodOK, skipBeforeGood := false, false
+	refusedBefore, refusedBeforeGood := false, false // some Verify was refused earlier on this cached layer
 	var last layer.Layer
 	for i, op := range h {
 		before := s.reg.Requests()
@@ -497,6 +498,12 @@ func runHistCase(r *vf.Run, bc *blobCase, a *alteration, store string, h []strin
 			l.SkipVerify()
 			results = append(results, "SkipVerify")
 			priorSkip = true
+		case opP:
+			// synchronous: the history is about call ORDER (schedules are the gate stages' job)
+			perr := l.Prefetch(int64(len(a.Blob)))
+			berr := l.BackgroundFetch()
+			_ = l.Info()
+			results = append(results, fmt.Sprintf("Prefetch=%v,BackgroundFetch=%v", perr == nil, berr == nil))
 		case opVg, opVo:
 			d := dGood
 			if op == opVo {
@@ -505,6 +512,7 @@ func runHistCase(r *vf.Run, bc *blobCase, a *alteration, store string, h []strin
 			verr := l.Verify(d)
 			if verr != nil {
 				results = append(results, op+"=err")
+				refusedBefore = true
 				continue
 			}
 			results = append(results, op+"=nil")
@@ -525,6 +533,7 @@ func runHistCase(r *vf.Run, bc *blobCase, a *alteration, store string, h []strin
 			if d == dGood && !goodOK {
 				goodOK = true
 				skipBeforeGood = priorSkip
+				refusedBeforeGood = refusedBefore
 			}
 		}
 	}
@@ -540,6 +549,9 @@ func runHistCase(r *vf.Run, bc *blobCase, a *alteration, store string, h []strin
 	key := "ii:read-returns-altered-bytes:L2:hist"
 	if skipBeforeGood {
 		key = "verify-after-skipverify:no-op"
+	} else if refusedBeforeGood {
+		// a Verify on this cached layer was refused before Verify(D_good) returned nil
+		key = "ii:read-returns-altered-bytes:L2:after-verify-retry"
 	}
 	plan := bc.readPlan(a, r.RNG(0x9EAF, caseNo), p.NRandom)
 	for _, phase := range []string{"cold", "warm"} {
@@ -558,6 +570,8 @@ func runHistCase(r *vf.Run, bc *blobCase, a *alteration, store string, h []strin
 			ck := "iii:cache-holds-non-genuine:L2:hist"
 			if skipBeforeGood {
 				ck = "verify-after-skipverify:no-op:cache-holds-altered-chunk"
+			} else if refusedBeforeGood {
+				ck = "iii:cache-holds-non-genuine:L2:after-verify-retry"
 			}
 			r.Violate(ck, fmt.Sprintf("history [%s]: Verify(pinned) returned nil and fscache holds a committed file (%d bytes, %s) that is neither a genuine chunk nor a whole genuine file (%s, %s)", hs, len(v), filepath.Base(k), a.Desc, bc), replay)
 		}
@@ -566,10 +580,9 @@ func runHistCase(r *vf.Run, bc *blobCase, a *alteration, store string, h []strin
 }
 
 func stageHist(r *vf.Run) {
-	hs := histories()
+	hs := histories(opVg, opVo, opS)
 	r.Set("hist_histories", len(hs))
 	nBlobs := r.N(1, 2)
-	n := uint64(0)
 	for bi := 0; bi < nBlobs; bi++ {
 		bc, err := buildBlobMode(r, 2000+bi, compressionFor(bi), true)
 		if err != nil {
@@ -588,7 +601,6 @@ func stageHist(r *vf.Run) {
 					if !r.Thorough() && (vi+si)%2 == 1 {
 						continue // quick: altered blob on the memory store, genuine blob on the db store
 					}
-					n++
 					cn := uint64(bi)<<32 | uint64(hi)<<8 | uint64(vi)<<4 | uint64(si)
 					r.Watchdog(3*time.Minute, "history case", func() { runHistCase(r, bc, a, store, h, cn) })
 				}
@@ -596,6 +608,40 @@ func stageHist(r *vf.Run) {
 		}
 		if bi == 0 {
 			r.Sample(map[string]any{"level": "hist", "blob": bc.String(), "alteration": alt.Desc, "histories": len(hs)})
+		}
+	}
+}
+
+// stageHistP: call histories <= 3 over {Prefetch+BackgroundFetch, Verify(D_good), Verify(D_other)}
+// on ONE cached layer of an ALTERED blob (one digest-only altered chunk): Verify(D_good)
+// legitimately fails once the prefetch walk has seen the chunk, and must KEEP failing
+// (the chunk sits committed in the cache; only the recorded error protects it).
+func stageHistP(r *vf.Run) {
+	hs := histories(opP, opVg, opVo)
+	r.Set("histp_histories", len(hs))
+	nBlobs := r.N(1, 2)
+	for bi := 0; bi < nBlobs; bi++ {
+		bc, err := buildBlobMode(r, 2100+bi, compressionFor(bi), true)
+		if err != nil {
+			r.Inconclusive("blob build: " + firstLine(err.Error()))
+			continue
+		}
+		alt, ok := digestOnlyAlteration(r, bc, 4)
+		if !ok {
+			r.Inconclusive("histp: no digest-only alteration")
+			continue
+		}
+		for hi, h := range hs {
+			for si, store := range []string{"memory", "db"} {
+				if !r.Thorough() && (hi+si)%2 == 1 {
+					continue // quick: the stores alternate over the histories
+				}
+				cn := uint64(bi)<<32 | 1<<24 | uint64(hi)<<8 | uint64(si)
+				r.Watchdog(3*time.Minute, "prefetch history case", func() { runHistCase(r, bc, alt, store, h, cn) })
+			}
+		}
+		if bi == 0 {
+			r.Sample(map[string]any{"level": "histp", "blob": bc.String(), "alteration": alt.Desc, "histories": len(hs)})
 		}
 	}
 }
